@@ -1995,7 +1995,11 @@ func (ss *ServerSession) getConn() *jsonrpc2.Connection { return ss.conn }
 func (ss *ServerSession) handle(ctx context.Context, req *jsonrpc.Request) (any, error) {
 	ss.mu.Lock()
 	initialized := ss.state.InitializeParams != nil
+	transportVersions := ss.supportedVersions
 	ss.mu.Unlock()
+	if transportVersions == nil {
+		transportVersions = supportedProtocolVersions
+	}
 
 	// Per-request protocol detection (SEP-2575): if the request carries
 	// `io.modelcontextprotocol/protocolVersion` in its `_meta` field, it
@@ -2006,10 +2010,18 @@ func (ss *ServerSession) handle(ctx context.Context, req *jsonrpc.Request) (any,
 		return nil, perRequestErr
 	}
 
+	// The version must be one the session's transport can serve (see
+	// [ProtocolVersionSupporter]), as for initialize. The server/discover
+	// probe is the exception: a client learns the transport's versions from
+	// it, so it only has to name a version the SDK knows.
+	acceptedVersions := transportVersions
+	if req.Method == methodDiscover {
+		acceptedVersions = supportedProtocolVersions
+	}
 	if validatedMeta.usesNewProtocol &&
-		!slices.Contains(supportedProtocolVersions, validatedMeta.initializeParams.ProtocolVersion) {
+		!slices.Contains(acceptedVersions, validatedMeta.initializeParams.ProtocolVersion) {
 		data, _ := json.Marshal(UnsupportedProtocolVersionData{
-			Supported: supportedProtocolVersions,
+			Supported: transportVersions,
 			Requested: validatedMeta.initializeParams.ProtocolVersion,
 		})
 		return nil, &jsonrpc.Error{
